@@ -123,6 +123,7 @@ type HarnessConfig struct {
 	Tier            string
 	ExploreSeconds  int
 	Lazy            bool
+	BranchSliceHops int
 }
 
 type HarnessResult struct {
@@ -161,6 +162,7 @@ func RunHarness(l *Loaded, fn *ssa.Function, cfg HarnessConfig) (res *HarnessRes
 		e.Deadline = time.Now().Add(time.Duration(cfg.ExploreSeconds) * time.Second)
 	}
 	e.Lazy = cfg.Lazy
+	e.BranchSliceHops = cfg.BranchSliceHops
 	if cfg.Unwind > 0 {
 		e.Unwind = cfg.Unwind
 	}
